@@ -1,5 +1,7 @@
 import ComposeVerif.Ops.Common
 import ComposeVerif.Model.Marshal
+import ComposeVerif.Model.Encode
+import ComposeVerif.Gen.Types
 /-! line-protocol ops for C09: `c09.marshal` / `c09.decode` (custom marshallers and decoders of package types) -/
 open Lean
 namespace CV.Ops.C09
@@ -71,6 +73,15 @@ def decodeOp : Handler := fun args =>
   | none, _ => Json.mkObj [("bad", "type")]
   | _, .error e => Json.mkObj [("bad", e)]
 
-def handlers : List (String × Handler) := [("c09.marshal", marshalOp), ("c09.decode", decodeOp)]
+def genEnv : CV.Encode.Env := { structs := CV.Gen.structs, named := CV.Gen.namedTypes, customs := CV.Gen.customMethods }
+
+/-- tag-driven rendering of a typed value of a model type over the regenerated descriptors -/
+def structOp : Handler := fun args =>
+  let fmt := if getStr args "fmt" == "json" then CV.Encode.Fmt.json else CV.Encode.Fmt.yaml
+  match Val.ofJson (getObj args "v") with
+  | .ok v => outJson (CV.Encode.render genEnv fmt (getStr args "type") v)
+  | .error e => Json.mkObj [("bad", e)]
+
+def handlers : List (String × Handler) := [("c09.marshal", marshalOp), ("c09.decode", decodeOp), ("c09.struct", structOp)]
 
 end CV.Ops.C09
